@@ -120,6 +120,10 @@ def bounded(tier, seed):
     docs = D.documents(seed, 80 if tier == "quick" else 600, hazards=False)
     docs += ["He said \"it's `a \"q\" b` fine\" and 'x'.\n", "\"a\" <span title=\"t\"> [l](http://x \"T\") \\\"esc\\\" {% t a=\"b\" %} <!-- \"c\" -->\n",
              "\"one\n\ntwo\" para\n", "| \"a\" | 'b' |\n|---|---|\n| it's | \"c\" |\n", "```\n\"code\" it's\n```\n",
+             # quotes around sentence ends: converting them must not move a (semantic) line break
+             'She said "done". Then she left the room quietly. He said \'ok\'. Next one follows here.\n',
+             'It was "fine." Then more words follow here. It was \'fine.\' And again more words here.\n',
+             'Is it "over"? Nobody knows for sure yet. Call it \'done\'! Everyone went home early.\n',
              # a quote that opens in one block and "closes" in the next is never a pair
              'He said "hello\n\nworld" again.\n', '- He said "hello\n\n  world" again.\n', '> He said "hello\n>\n> world" again.\n',
              'Text.[^1]\n\n[^1]: He said "hello\n\n    world" again.\n', "Text.[^n]\n\n[^n]: The so-called 'first\n\n    part' of it.\n",
@@ -140,7 +144,7 @@ def bounded(tier, seed):
     return {"evaluations": evals, "distinct_nontrivial": len(distinct), "violations": viol,
             "samples": [{"text": "\"a\" it's"}, {"text": docs[-5]}],
             "rule": "smart_quotes on every string of length <= %d over the 13-symbol alphabet %r: Q(input, output) and template tags "
-                    "verbatim; documents of the document space + 15 targeted ones (quotes split over paragraphs, list items, quote blocks, table cells, "
+                    "verbatim; documents of the document space + 18 targeted ones (quotes split over paragraphs, list items, quote blocks, table cells, "
                     "multi-block footnote definitions) x 2 option sets: output with the option on is "
                     "Q-related to the output with it off (same length, same line breaks), every converted opening quote has its converted partner in the same paragraph, and has the same literal spans; distinct = "
                     "distinct changed outputs" % (maxlen, ALPHABET),
